@@ -135,9 +135,13 @@ def rule_ns_charcfg(P):
                    "final `N ∩ V = ∅` assertion is kept", "names of terminals and nonterminals never collide")
     f = P.func("lark_interface.py::LarkStuff._char_cfg")
     r.looked_at(f)
-    wrap = P.funcs.get(f"{f.qual}.f")
+    wrap = None
+    for g in P.funcs.values():
+        if g.outer is f and any(isinstance(n, ast.Return) and isinstance(n.value, ast.JoinedStr) for n in walk_live(g.node)):
+            wrap = g
     if wrap is None:
-        raise AnalysisError("_char_cfg: renaming function f not found")
+        raise AnalysisError("_char_cfg: renaming function (returns an f-string over an Integerizer) not found")
+    fname = wrap.name
     res = None
     for n in walk_live(f.node):
         if isinstance(n, ast.Return) and isinstance(n.value, ast.Name):
@@ -146,7 +150,7 @@ def rule_ns_charcfg(P):
         raise AnalysisError("_char_cfg: result variable not found")
 
     def wrapped(e, at):
-        if isinstance(e, ast.Call) and W.is_name(e.func, "f"):
+        if isinstance(e, ast.Call) and W.is_name(e.func, fname):
             return True
         if isinstance(e, ast.Starred):
             return wrapped(e.value, at)
@@ -179,7 +183,7 @@ def rule_ns_charcfg(P):
         for v in defs:
             if isinstance(v, ast.Call) and W.call_name(v) == "interegular_to_wfsa":
                 nk = next((k.value for k in v.keywords if k.arg == "name"), None)
-                okn = isinstance(nk, ast.Lambda) and isinstance(nk.body, ast.Call) and W.is_name(nk.body.func, "f")
+                okn = isinstance(nk, ast.Lambda) and isinstance(nk.body, ast.Call) and W.is_name(nk.body.func, fname)
             elif isinstance(v, ast.Call) and W.call_name(v) == "to_bytes" and W.is_name(W.receiver(v), fsa.id):
                 continue
             else:
@@ -319,4 +323,68 @@ def rule_looppair(P):
                   slots=dict(loops=list(s[0])))
     # the zero fan-out guard
     r.min_instances = 2
+    return r
+
+
+# ---------------------------------------------------------------- ENC-UTF8
+
+
+def rule_enc_utf8(P):
+    r = RuleResult("ENC-UTF8", "in CFG.to_bytes and WFSA.to_bytes every byte that replaces a string symbol comes from that symbol's "
+                   "`.encode('utf-8')` (the whole sequence, in order): no other codec, no ord()/chr() shortcut (ord(c) is the UTF-8 "
+                   "encoding only below 0x80)", "byte symbols are exactly the UTF-8 encoding")
+    for q, sinks in (("cfg.py::CFG.to_bytes", ("extend", "append", "add")), ("wfsa/base.py::WFSA.to_bytes", ("add_arc",))):
+        f = P.func(q)
+        r.looked_at(f)
+        src = {}
+        for n in walk_live(f.node):
+            if isinstance(n, ast.Assign) and isinstance(n.targets[0], ast.Name):
+                v = n.value
+                inner = v.args[0] if isinstance(v, ast.Call) and W.call_name(v) in ("list", "tuple", "bytes") and v.args else v
+                if isinstance(inner, ast.Call) and W.call_name(inner) == "encode":
+                    codec = inner.args[0].value if inner.args and isinstance(inner.args[0], ast.Constant) else ("utf-8" if not inner.args else None)
+                    src[n.targets[0].id] = (n, codec, norm(W.receiver(inner)))
+        if not src:
+            r.add(f, f.node, False, "no `<symbol>.encode('utf-8')` found", construct=f"{q}: UTF-8 encoder")
+            continue
+        for name, (st, codec, sym) in src.items():
+            ok = codec is not None and str(codec).lower().replace("_", "-") in ("utf-8", "utf8")
+            r.add(f, st, ok, "" if ok else f"`{first_line(st)}` does not encode with UTF-8")
+
+        def from_src(e):
+            if isinstance(e, ast.Name):
+                if e.id in src:
+                    return True
+                for a in ancestors(e):
+                    if isinstance(a, ast.For) and W.is_name(a.target, e.id):
+                        it = a.iter
+                        base = it.value if isinstance(it, ast.Subscript) else it
+                        return isinstance(base, ast.Name) and base.id in src
+                return False
+            if isinstance(e, ast.Subscript):
+                return isinstance(e.value, ast.Name) and e.value.id in src
+            return False
+
+        for n in walk_live(f.node):
+            if isinstance(n, ast.Call) and isinstance(n.func, ast.Name) and n.func.id in ("ord", "chr"):
+                r.add(f, n, False, f"`{first_line(n)}`: code points are not UTF-8 bytes above 0x7F ('é' is b'\\xc3\\xa9', not 0xE9)")
+            if isinstance(n, ast.Call) and isinstance(n.func, ast.Attribute) and n.func.attr in sinks:
+                if n.func.attr == "add_arc":
+                    lab = n.args[1]
+                    facts = W.guard_facts(n)
+                    if any(ft.pol and "EPSILON" in norm(ft.test) for ft in facts):
+                        continue
+                    ok = from_src(lab)
+                    r.add(f, n, ok, "" if ok else f"`{first_line(n)}`: byte label `{norm(lab)}` does not come from the symbol's UTF-8 encoding")
+                elif n.func.attr in ("extend", "append") and n.args:
+                    facts = W.guard_facts(n)
+                    if not any(ft.pol and "is_terminal" in norm(ft.test) for ft in facts):
+                        continue
+                    a = n.args[0]
+                    ok = from_src(a)
+                    r.add(f, n, ok, "" if ok else f"`{first_line(n)}`: `{norm(a)}` is not the symbol's UTF-8 byte sequence")
+                elif n.func.attr == "add" and len(n.args) == 1 and norm(W.receiver(n)).endswith(".V"):
+                    ok = from_src(n.args[0])
+                    r.add(f, n, ok, "" if ok else f"`{first_line(n)}`: vocabulary entry `{norm(n.args[0])}` is not a UTF-8 byte of the symbol")
+    r.min_instances = 8
     return r
